@@ -68,6 +68,44 @@ def green_case(op, pos, empty, fbits, vals, raising=False, finish=False):
     return (outcome != "passed") == bad
 
 
+def wrong_single(op, x, v):
+    if op in ("eq", "gi"):
+        return not (x == v["c0"])
+    if op == "le":
+        return not (x <= v["c0"])
+    if op == "ge":
+        return not (x >= v["c0"])
+    return not (x == v["c0"] or x == v["c1"])
+
+
+def shared_case(op, fbits, vals, order):
+    """the same snapshot() call site (inside a helper) is executed by two test items with different values: each
+    item is judged on its own comparison (incorrect_values is per item, the snapshot object lives for the session)"""
+    if op in ("eq", "gi"):
+        # one == snapshot compared with two different values contradicts itself (exempt): both items see the same value
+        vals = dict(vals)
+        vals["x1"] = vals["x0"]
+    world.reset(dict(vals))
+    W.no_canon = True
+    try:
+        arg = {"eq": "c0", "le": "c0", "ge": "c0", "in": "[c0, c1]", "gi": "{1: c0}"}[op]
+        cmpx = {"eq": "x == snapshot({a})", "le": "x <= snapshot({a})", "ge": "x >= snapshot({a})", "in": "x in snapshot({a})", "gi": "snapshot({a})[1] == x"}[op].format(a=arg)
+        first, second = ("x0", "x1") if order else ("x1", "x0")
+        t = HEAD + f"def check(x):\n    assert {cmpx}\n\ndef test_a():\n    check({first})\n\ndef test_b():\n    check({second})\n"
+        flags = [n for n, b in zip(FLAGS, fbits) if b]
+        r = world.plugin_session(t, cli=",".join(flags) if flags else "short-report", answers=[False] * 4, finish=False)
+    finally:
+        W.no_canon = False
+    if r.usage_error is not None:
+        return False
+    oa = r.outcomes.get(("test_a.py", "test_a"))
+    ob = r.outcomes.get(("test_a.py", "test_b"))
+    va, vb = (vals["x0"], vals["x1"]) if order else (vals["x1"], vals["x0"])
+    wa, wb = wrong_single(op, va, vals), wrong_single(op, vb, vals)
+    PathLog.record(f"shared{op}{flags}{oa}{ob}", nontrivial=True, sample={"shared_call_site": op, "flags": flags, "outcomes": [oa, ob], "wrong": [bool(wa), bool(wb)]})
+    return (oa != "passed") == wa and (ob != "passed") == wb
+
+
 def real_exit_status():
     """contract validation (no solver): pytest turns a failing autouse-fixture teardown / failing test into a non-zero
     exit status, and a test whose snapshots all hold passes - with the real plugin in a real pytest process."""
@@ -85,7 +123,7 @@ def real_exit_status():
     return ok
 
 
-GLB = {"green_case": green_case, "__name__": "harness.c07"}
+GLB = {"green_case": green_case, "shared_case": shared_case, "__name__": "harness.c07"}
 VALS = ["c0", "c1", "x0", "x1", "y0", "d0", "y1", "d1"]
 VD = "{" + ", ".join(f"{n!r}: {n}" for n in VALS) + "}"
 
@@ -107,6 +145,13 @@ def conditions(tier):
                         fn = mkfn(name, fb + [(n, "int") for n in VALS], body, GLB, pre=pre)
                         conds.append(Cond(name, fn, timeout=900, group="green",
                                           bounds=f"3 snapshots in one test; subject `{op}` at position {pos}, {'empty' if empty else 'with argument'}; all 8 values symbolic; fix={fix}, create={create}, every subset of trim/update/review{'/report' if not q else ''}"))
+    for op in SUBJECT:
+        for fix in (False, True):
+            body = f"return shared_case({op!r}, [f0, f1, f2, f3, f4, f5], {{'c0': c0, 'c1': c1, 'x0': x0, 'x1': x1}}, order)"
+            name = f"shared_{op}_{'fix' if fix else 'nofix'}"
+            fn = mkfn(name, fb + [("c0", "int"), ("c1", "int"), ("x0", "int"), ("x1", "int"), ("order", "bool")], body, GLB, pre=[f"f1 == {fix} and not f5"])
+            conds.append(Cond(name, fn, timeout=900, group="shared",
+                              bounds=f"one `{op}` snapshot call site inside a helper executed by two test items with symbolic values in either order; fix={fix}, every subset of create/trim/update/review"))
     body = f"return green_case('eq', 1, False, [f0, f1, f2, f3, f4, f5], {VD}, True)"
     conds.append(Cond("green_raising_test", mkfn("green_raising_test", fb + [(n, "int") for n in VALS], body, GLB, pre=["not f4 and not f5"]), timeout=900, group="green", bounds="test body raises after its snapshots"))
     body = f"return green_case('le', 1, False, [f0, f1, f2, f3, f4, f5], {VD}, False, True)"
